@@ -109,6 +109,7 @@ fn noop_waker() -> Waker {
     unsafe { Waker::from_raw(RawWaker::new(std::ptr::null(), &VTABLE)) }
 }
 
+#[derive(Clone)]
 pub enum Ev {
     Bytes(Vec<u8>),
     Signal(Object),
@@ -253,30 +254,49 @@ pub fn set_instance() -> String {
     tok
 }
 
+static HUNG: std::sync::atomic::AtomicUsize = std::sync::atomic::AtomicUsize::new(0);
+
+/// A session that never gives control back (it spins inside one poll) cannot be interrupted in-process: every case
+/// runs on its own thread; a case that has not finished after 10 s is reported as `HANG`, its thread is abandoned,
+/// and after a few of those no further session cases are produced (the ones written suffice for the report).
+fn run_case_opt(out: &mut Out, inst_tok: &str, tag: &str, evs: &[Ev], nontrivial: bool, wfail: bool) {
+    use std::sync::atomic::Ordering;
+    if HUNG.load(Ordering::SeqCst) >= 4 {
+        return;
+    }
+    let ins: Vec<String> = evs.iter().map(ev_tok).collect();
+    let evs2: Vec<Ev> = evs.to_vec();
+    let (tx, rx) = std::sync::mpsc::channel::<Vec<String>>();
+    let worker = std::thread::spawn(move || {
+        let mut s = SessionRun::new();
+        s.script.lock().unwrap().wfail = wfail;
+        let outs: Vec<String> = evs2.iter().map(|e| s.event(e)).collect();
+        let _ = tx.send(outs);
+    });
+    match rx.recv_timeout(std::time::Duration::from_secs(10)) {
+        Ok(outs) => {
+            let _ = worker.join();
+            out.case(&format!("{} {} {}", tag, inst_tok, ins.join(" ")), &outs.join(" "), nontrivial);
+        }
+        Err(_) => {
+            HUNG.fetch_add(1, Ordering::SeqCst);
+            out.case(&format!("{} {} {}", tag, inst_tok, ins.join(" ")), "HANG", true);
+            out.count("session case that never returned (thread abandoned)");
+        }
+    }
+    if wfail {
+        out.count("transport: writes fail (peer gone)");
+    }
+}
+
 /// Run a whole case and emit it: `<inst> <ev>… => <out>…`.
 pub fn run_case(out: &mut Out, inst_tok: &str, tag: &str, evs: &[Ev], nontrivial: bool) {
-    let mut s = SessionRun::new();
-    let mut ins = vec![];
-    let mut outs = vec![];
-    for e in evs {
-        ins.push(ev_tok(e));
-        outs.push(s.event(e));
-    }
-    out.case(&format!("{} {} {}", tag, inst_tok, ins.join(" ")), &outs.join(" "), nontrivial);
+    run_case_opt(out, inst_tok, tag, evs, nontrivial, false)
 }
 
 /// The same with a peer that is already gone: every write the session attempts fails.
 pub fn run_case_wfail(out: &mut Out, inst_tok: &str, tag: &str, evs: &[Ev], nontrivial: bool) {
-    let mut s = SessionRun::new();
-    s.script.lock().unwrap().wfail = true;
-    let mut ins = vec![];
-    let mut outs = vec![];
-    for e in evs {
-        ins.push(ev_tok(e));
-        outs.push(s.event(e));
-    }
-    out.case(&format!("{} {} {}", tag, inst_tok, ins.join(" ")), &outs.join(" "), nontrivial);
-    out.count("transport: writes fail (peer gone)");
+    run_case_opt(out, inst_tok, tag, evs, nontrivial, true)
 }
 
 /// Frame bytes: header + payload.
